@@ -83,6 +83,9 @@ func (u *Unit) lookupName(name string, env *Env, sc *specCtx) (Value, bool) {
 		}
 	} else {
 		if t, ok := env.alias[name]; ok {
+			if ty, ok := env.aliasTy[name]; ok {
+				return Value{t, ty}, true
+			}
 			return Value{t, types.Typ[types.Int]}, true
 		}
 		// result names
@@ -186,6 +189,10 @@ func (u *Unit) sv(e ast.Expr, env *Env, sc *specCtx) Value {
 		case token.LOR:
 			return Value{Or(l.Term, r.Term), boolT}
 		case token.EQL, token.NEQ:
+			// a struct value is never nil
+			if (isNilV(l) && strings.HasPrefix(string(r.Sort), "St_")) || (isNilV(r) && strings.HasPrefix(string(l.Sort), "St_")) {
+				return Value{boolTerm(x.Op == token.NEQ), boolT}
+			}
 			l, r = u.specUnify(l, r, env)
 			var eq Term
 			if l.Sort == SSlice && (isNilV(r) || isNilV(l)) {
